@@ -434,7 +434,7 @@ Inductive stage :=
 | SListOf (vs : list val)
 | SMergeWithX (d : kvs) (lm im : option lam2) (maxl : Z)
 | SSelf (op : selfop)
-| SGroupByAggP (k : lam) (v : option lam) (agg : list stage) (term : nat).   (* aggregator: $ + pipeline + len / sum(0) / first(null) / toList *)
+| SGroupByAggP (k : lam) (v : option lam) (agg : list stage) (term : nat).   (* aggregator: $ + pipeline + count / sum(0) / first(null) / toList *)
 
 (* yaqltypes.Iterable(): tuples, lists, sets, iterators, OrderingIterable; not dicts *)
 Definition as_it (r : rv) : option it :=
